@@ -12,9 +12,12 @@ Property theorems only.  Two kernels of /repo are covered:
     `rnd` is a parameter (see the model header);
   * plus the page arithmetic and the scroll / head processors over every batching.
 
-Found false of the code as written (counterexample theorem + partial statement + known finding):
-  - the OLDEST-first mode of the scheduler (recentLast; selected by no query path in this version) can leave
-    records in unsentRRCs for ever (fetch_reaches_eof_counterexample).
+Found false of the code as it was and REPAIRED (patch "a search never returned when a block reached past the time
+range its segment advertises", fetchRRCs `lastBlocks`): records kept back in unsentRRCs with no round left to
+release them — in the OLDEST-first mode (recentLast; selected by no query path in this version) even for
+well-formed input.  After the repair EOF is reached for EVERY input in both modes (fetch_always_reaches_eof,
+fetch_reaches_eof); the old scheduler is kept as `fetchRRCsOld` for fetch_reaches_eof_counterexample_old and
+fetch_recentLast_stuck_forever_old.
 Found false and REPAIRED in /repo (fix: commits of C05): `less` was not a strict weak order — compareFloat used
 AlmostEquals' tolerance as equality (non-transitive "equal"), NaN was "equal" to every number and ±Inf was not
 equal to itself.  With the exact compareFloat the statement is proved at full strength
@@ -53,6 +56,12 @@ def UniqueBlockIds (segs : List Seg) : Prop := ((allBlocks segs).map (·.id)).No
 instance (segs : List Seg) : Decidable (WellFormed segs) := by unfold WellFormed; infer_instance
 instance (segs : List Seg) : Decidable (UniqueBlockIds segs) := by unfold UniqueBlockIds; infer_instance
 
+/-- Timestamps are uint64 in the code (`Nat` in the model): no record lies beyond math.MaxUint64.  Needed in
+oldest-first mode only, where the end time of the last round is math.MaxUint64. -/
+def TsFit (segs : List Seg) : Prop := ∀ r ∈ allRecs segs, r.2 ≤ maxU64
+
+instance (segs : List Seg) : Decidable (TsFit segs) := by unfold TsFit; infer_instance
+
 /-- all records released by the first `fuel` Fetch calls, in order -/
 def released (m : Mode) (maxBlocks fuel : Nat) (segs : List Seg) : List Rec :=
   (runFetch m maxBlocks fuel (init m segs)).1.flatten
@@ -60,6 +69,13 @@ def released (m : Mode) (maxBlocks fuel : Nat) (segs : List Seg) : List Rec :=
 /-- EOF was reached within `fuel` Fetch calls -/
 def reachedEOF (m : Mode) (maxBlocks fuel : Nat) (segs : List Seg) : Bool :=
   (runFetch m maxBlocks fuel (init m segs)).2
+
+/-- the same two for the scheduler BEFORE the repair (`fetchRRCsOld`), for the counterexample theorems only -/
+def releasedOld (m : Mode) (maxBlocks fuel : Nat) (segs : List Seg) : List Rec :=
+  (runFetchOld m maxBlocks fuel (init m segs)).1.flatten
+
+def reachedEOFOld (m : Mode) (maxBlocks fuel : Nat) (segs : List Seg) : Bool :=
+  (runFetchOld m maxBlocks fuel (init m segs)).2
 
 theorem wf_iff (segs : List Seg) (h : WellFormed segs) : Lemmas.C05.WF segs := by
   intro s hs b hb
@@ -69,7 +85,8 @@ theorem wf_iff (segs : List Seg) (h : WellFormed segs) : Lemmas.C05.WF segs := b
 /-- C05.1 `fetch_released_sorted`: for EVERY well-formed set of segment requests and blocks (overlapping,
 nested, identical ranges, ties), every maxBlocks and every number of Fetch calls, the concatenation of the
 released batches is sorted by timestamp (non-strictly): newest first in recentFirst mode, oldest first in
-recentLast mode.  (`m.before b a = false` reads "b is not strictly before a in the output order".) -/
+recentLast mode — the last round, which hands out everything that was kept back, included.
+(`m.before b a = false` reads "b is not strictly before a in the output order".) -/
 theorem fetch_released_sorted (m : Mode) (segs : List Seg) (maxBlocks fuel : Nat) (hwf : WellFormed segs) :
     (released m maxBlocks fuel segs).Pairwise (fun a b => m.before b.2 a.2 = false) :=
   (Lemmas.C05.run_sorted m segs (wf_iff segs hwf) maxBlocks fuel (init m segs) (Lemmas.C05.inv_init m segs)).1
@@ -80,6 +97,12 @@ theorem fetch_released_newest_first (segs : List Seg) (maxBlocks fuel : Nat) (hw
   have := fetch_released_sorted .recentFirst segs maxBlocks fuel hwf
   exact this.imp (fun h => by simpa using h)
 
+/-- … and for the other mode: oldest first -/
+theorem fetch_released_oldest_first (segs : List Seg) (maxBlocks fuel : Nat) (hwf : WellFormed segs) :
+    (released .recentLast maxBlocks fuel segs).Pairwise (fun a b => a.2 ≤ b.2) := by
+  have := fetch_released_sorted .recentLast segs maxBlocks fuel hwf
+  exact this.imp (fun h => by simpa using h)
+
 /-- C05.2 `fetch_released_perm`: once EOF is reached, the released records are a permutation of all matching
 records: nothing is stuck in unsentRRCs, nothing is released twice (both modes). -/
 theorem fetch_released_perm (m : Mode) (segs : List Seg) (maxBlocks fuel : Nat) (hwf : WellFormed segs)
@@ -88,64 +111,118 @@ theorem fetch_released_perm (m : Mode) (segs : List Seg) (maxBlocks fuel : Nat) 
   (Lemmas.C05.run_perm m segs (wf_iff segs hwf) maxBlocks fuel (init m segs)
     (Lemmas.C05.invP_init m segs hid) heof).trans (Lemmas.C05.future_init m segs)
 
-/-- C05.2b the full statement "EOF is always reached": for every mode, after `fuelBound` Fetch calls the run
-has reached EOF. -/
+/-- C05.2b `fetch_always_reaches_eof` — "a search always ends": for EVERY input — well-formed or not: blocks
+that reach past the time range their segment advertises, records outside their block's range, repeated block
+ids, empty segments —, both modes and every maxBlocks, the run has reached EOF after
+`fuelBound = 2·(#segments + #blocks) + 4` Fetch calls.  Well-formedness is NOT needed; the only condition is the
+one the Go types give (timestamps are uint64). -/
+theorem fetch_always_reaches_eof (m : Mode) (segs : List Seg) (maxBlocks : Nat) (hfit : TsFit segs) :
+    reachedEOF m maxBlocks (fuelBound segs) segs = true := by
+  apply Lemmas.C05.run_eof m segs (fun _ => hfit) maxBlocks (fuelBound segs) (init m segs)
+    (Lemmas.C05.invE_init m segs) (Lemmas.C05.gbRem_init m segs)
+  rw [Lemmas.C05.mu_init]
+  unfold fuelBound
+  omega
+
+/-- newest first (the mode every query uses) needs no condition at all -/
+theorem fetch_always_reaches_eof_newest_first (segs : List Seg) (maxBlocks : Nat) :
+    reachedEOF .recentFirst maxBlocks (fuelBound segs) segs = true := by
+  apply Lemmas.C05.run_eof .recentFirst segs (fun h => by cases h) maxBlocks (fuelBound segs)
+    (init .recentFirst segs) (Lemmas.C05.invE_init _ segs) (Lemmas.C05.gbRem_init _ segs)
+  rw [Lemmas.C05.mu_init]
+  unfold fuelBound
+  omega
+
+/-- C05.2b the full statement "EOF is always reached" (as stated before the repair, when it was false): for
+every mode and every well-formed input, after `fuelBound` Fetch calls the run has reached EOF. -/
 def FetchReachesEOF : Prop :=
-  ∀ (m : Mode) (segs : List Seg) (maxBlocks : Nat), WellFormed segs → UniqueBlockIds segs →
+  ∀ (m : Mode) (segs : List Seg) (maxBlocks : Nat), WellFormed segs → UniqueBlockIds segs → TsFit segs →
     reachedEOF m maxBlocks (fuelBound segs) segs = true
+
+/-- … holds at full strength of the repaired scheduler (a corollary of `fetch_always_reaches_eof`; neither
+well-formedness nor unique block ids are used) -/
+theorem fetch_reaches_eof : FetchReachesEOF :=
+  fun m segs maxBlocks _ _ hfit => fetch_always_reaches_eof m segs maxBlocks hfit
+
+/-- Why `TsFit` appears: the model's timestamps are `Nat`.  A "timestamp" 2^64 — not a uint64, so not an input
+of the code — would be kept back by the last round of the oldest-first mode (end time math.MaxUint64). -/
+theorem fetch_eof_needs_uint64_timestamps :
+    ¬ ∀ (m : Mode) (segs : List Seg) (maxBlocks : Nat), WellFormed segs → UniqueBlockIds segs →
+        reachedEOF m maxBlocks (fuelBound segs) segs = true := by
+  intro h
+  let w : List Seg :=
+    [ { start := 0, stop := 5, blocks := [{ id := 0, low := 0, high := 5, recs := [(0, 1), (1, 5)] }] },
+      { start := 2, stop := 2 ^ 64, blocks := [{ id := 1, low := 2, high := 2 ^ 64, recs := [(2, 2), (3, 2 ^ 64)] }] } ]
+  have h1 := h .recentLast w 2 (by decide +kernel) (by decide +kernel)
+  have h2 : reachedEOF .recentLast 2 (fuelBound w) w = false := by decide +kernel
+  rw [h1] at h2
+  cases h2
 
 /-- the two overlapping segment requests [0,5] {1,5} and [2,9] {2,9} -/
 def stuckWitness : List Seg :=
   [ { start := 0, stop := 5, blocks := [{ id := 0, low := 0, high := 5, recs := [(0, 1), (1, 5)] }] },
     { start := 2, stop := 9, blocks := [{ id := 1, low := 2, high := 9, recs := [(2, 2), (3, 9)] }] } ]
 
-/-- FALSE of the code as written, in OLDEST-first mode: with `stuckWitness` and maxBlocks = 2 the record with
-timestamp 9 stays in unsentRRCs for ever — after the second request has left the list without contributing a
-new block, `getNextBlocks(nil)` returns end time 0 and `min(0, cutOff) = 0` releases nothing; EOF is never
-reached, for ANY number of Fetch calls.  (No query path selects recentLast in this version.) -/
-theorem fetch_reaches_eof_counterexample : ¬ FetchReachesEOF := by
+/-- the hypotheses are satisfiable, also by overlapping input -/
+example : WellFormed stuckWitness ∧ UniqueBlockIds stuckWitness ∧ TsFit stuckWitness := by decide +kernel
+
+/-- the repaired scheduler on `stuckWitness`, oldest first: EOF, all four records, in order -/
+example : reachedEOF .recentLast 2 (fuelBound stuckWitness) stuckWitness = true ∧
+    released .recentLast 2 (fuelBound stuckWitness) stuckWitness = [(0, 1), (2, 2), (1, 5), (3, 9)] := by
+  decide +kernel
+
+/-- HISTORICAL, about the scheduler before the repair (`fetchRRCsOld`): the statement `FetchReachesEOF` read for it -/
+def FetchReachesEOFOld : Prop :=
+  ∀ (m : Mode) (segs : List Seg) (maxBlocks : Nat), WellFormed segs → UniqueBlockIds segs → TsFit segs →
+    reachedEOFOld m maxBlocks (fuelBound segs) segs = true
+
+/-- HISTORICAL: FALSE of the code before the repair, in OLDEST-first mode: with `stuckWitness` and maxBlocks = 2
+the record with timestamp 9 stayed in unsentRRCs for ever — after the second request has left the list without
+contributing a new block, `getNextBlocks(nil)` returns end time 0 and `min(0, cutOff) = 0` released nothing; EOF
+was never reached, for ANY number of Fetch calls.  (Same root cause as the search that never returned when a
+block reached past the time range its segment advertises: records kept back with no round left to release
+them.) -/
+theorem fetch_reaches_eof_counterexample_old : ¬ FetchReachesEOFOld := by
   intro h
-  have h1 := h .recentLast stuckWitness 2 (by decide +kernel) (by decide +kernel)
-  have h2 : reachedEOF .recentLast 2 (fuelBound stuckWitness) stuckWitness = false := by decide +kernel
+  have h1 := h .recentLast stuckWitness 2 (by decide +kernel) (by decide +kernel) (by decide +kernel)
+  have h2 : reachedEOFOld .recentLast 2 (fuelBound stuckWitness) stuckWitness = false := by decide +kernel
   rw [h1] at h2
   cases h2
 
-/-- … and it is not a matter of the bound: no number of Fetch calls reaches EOF or releases record 3 (ts 9). -/
-theorem fetch_recentLast_stuck_forever (fuel : Nat) :
-    reachedEOF .recentLast 2 fuel stuckWitness = false ∧ (3, 9) ∉ released .recentLast 2 fuel stuckWitness := by
+/-- HISTORICAL: … and it was not a matter of the bound: no number of Fetch calls reached EOF or released
+record 3 (ts 9). -/
+theorem fetch_recentLast_stuck_forever_old (fuel : Nat) :
+    reachedEOFOld .recentLast 2 fuel stuckWitness = false ∧ (3, 9) ∉ releasedOld .recentLast 2 fuel stuckWitness := by
   -- after three Fetch calls the state repeats
   let s1 : St := { unproc := [{ start := 2, stop := 9, blocks := [{ id := 1, low := 2, high := 9, recs := [(2, 2), (3, 9)] }] }],
                    processed := [1, 0], remaining := [], unsent := [(3, 9)], cutoff := 5, gotBlocks := false, gotAll := false }
   let s2 : St := { unproc := [], processed := [1, 0], remaining := [], unsent := [(3, 9)], cutoff := 9, gotBlocks := false,
                    gotAll := false }
   let s3 : St := { s2 with gotAll := true }
-  have h1 : fetch .recentLast 2 (init .recentLast stuckWitness) = some ([(0, 1), (2, 2), (1, 5)], s1) := by decide +kernel
-  have h2 : fetch .recentLast 2 s1 = some ([], s2) := by decide +kernel
-  have h3 : fetch .recentLast 2 s2 = some ([], s3) := by decide +kernel
-  have h4 : fetch .recentLast 2 s3 = some ([], s3) := by decide +kernel
-  unfold reachedEOF released
+  have h1 : fetchOld .recentLast 2 (init .recentLast stuckWitness) = some ([(0, 1), (2, 2), (1, 5)], s1) := by decide +kernel
+  have h2 : fetchOld .recentLast 2 s1 = some ([], s2) := by decide +kernel
+  have h3 : fetchOld .recentLast 2 s2 = some ([], s3) := by decide +kernel
+  have h4 : fetchOld .recentLast 2 s3 = some ([], s3) := by decide +kernel
+  unfold reachedEOFOld releasedOld
   match fuel with
-  | 0 => simp [runFetch]
-  | 1 => simp [runFetch, h1]
-  | 2 => simp [runFetch, h1, h2]
+  | 0 => simp [runFetchOld]
+  | 1 => simp [runFetchOld, h1]
+  | 2 => simp [runFetchOld, h1, h2]
   | fuel + 3 =>
-    have hs := Lemmas.C05.stuck_forever .recentLast 2 s3 h4 fuel
-    simp only [runFetch, h1, h2, h3, List.flatten_cons, hs.1, hs.2, List.append_nil]
+    have hs := Lemmas.C05.stuck_forever_old .recentLast 2 s3 h4 fuel
+    simp only [runFetchOld, h1, h2, h3, List.flatten_cons, hs.1, hs.2, List.append_nil]
     simp
 
-/-- C05.2b (partial, guard = newest-first mode — the mode every query uses): for EVERY well-formed input
-and every maxBlocks, EOF is reached within `fuelBound = 2·(#segments + #blocks) + 4` Fetch calls. -/
-theorem fetch_reaches_eof_partial (segs : List Seg) (maxBlocks : Nat) (hwf : WellFormed segs)
-    (hid : UniqueBlockIds segs) :
-    reachedEOF .recentFirst maxBlocks (fuelBound segs) segs = true := by
-  apply Lemmas.C05.run_eof segs (wf_iff segs hwf) maxBlocks (fuelBound segs) (init .recentFirst segs)
-    (Lemmas.C05.invP_init .recentFirst segs hid) (Lemmas.C05.invT_init segs)
-  rw [Lemmas.C05.mu_init]
-  unfold fuelBound
-  omega
-
-/-- the guard of the partial statements is satisfiable, also by overlapping input -/
-example : WellFormed stuckWitness ∧ UniqueBlockIds stuckWitness := by decide +kernel
+/-- C05.2c everything together (both modes): after `fuelBound` Fetch calls the run is at EOF and has released
+exactly the matching records, in the order of the mode. -/
+theorem fetch_complete (m : Mode) (segs : List Seg) (maxBlocks : Nat) (hwf : WellFormed segs)
+    (hid : UniqueBlockIds segs) (hfit : TsFit segs) :
+    reachedEOF m maxBlocks (fuelBound segs) segs = true ∧
+    (released m maxBlocks (fuelBound segs) segs).Perm (allRecs segs) ∧
+    (released m maxBlocks (fuelBound segs) segs).Pairwise (fun a b => m.before b.2 a.2 = false) :=
+  ⟨fetch_always_reaches_eof m segs maxBlocks hfit,
+   fetch_released_perm m segs maxBlocks (fuelBound segs) hwf hid (fetch_always_reaches_eof m segs maxBlocks hfit),
+   fetch_released_sorted m segs maxBlocks (fuelBound segs) hwf⟩
 
 /-- C05.2c newest first, everything together: after `fuelBound` Fetch calls the run is at EOF and has released
 exactly the matching records, newest first. -/
@@ -154,7 +231,7 @@ theorem fetch_newest_first_complete (segs : List Seg) (maxBlocks : Nat) (hwf : W
     (released .recentFirst maxBlocks (fuelBound segs) segs).Perm (allRecs segs) ∧
     (released .recentFirst maxBlocks (fuelBound segs) segs).Pairwise (fun a b => b.2 ≤ a.2) :=
   ⟨fetch_released_perm .recentFirst segs maxBlocks (fuelBound segs) hwf hid
-      (fetch_reaches_eof_partial segs maxBlocks hwf hid),
+      (fetch_always_reaches_eof_newest_first segs maxBlocks),
    fetch_released_newest_first segs maxBlocks (fuelBound segs) hwf⟩
 
 /-- C05.3 `head_n_newest`: the first n released records are n newest ones — each of them is at least as new as
